@@ -160,12 +160,11 @@ def check_case(ctx: Ctx, case) -> None:
             ctx.fail("garbage-changes-events", f"unparsable lines changed the parsed chart: "
                                                f"{diff_paths(base_obs, o)}", rc)
             return
-        reported = Counter(C.unparsable_texts(recs))
-        want = Counter(garbage)
-        if reported != want:
-            ctx.fail("reported-once", f"unparsable lines {dict(want - reported)} not reported / "
-                                      f"{dict(reported - want)} reported too often", rc)
-        extra = [r.getMessage() for r in recs if not r.getMessage().startswith("unparsable line")]
+        why = C.reports_match(C.records_of(recs, "chartparse.track"), garbage)
+        if why:
+            ctx.fail("reported-once", f"unparsable lines are not reported exactly once each: {why}; "
+                                      f"records: {[r.getMessage()[:80] for r in recs][:4]}", rc)
+        extra = [r.getMessage() for r in recs if r.name != "chartparse.track"]
         if extra:
             ctx.fail("reported-once", f"unexpected log records {extra[:3]}", rc)
         nontrivial = nontrivial or info["inside_group"] or info["run"] or \
@@ -252,7 +251,7 @@ def check_datum(ctx: Ctx, case) -> None:
             return
     lists = {k.__qualname__: _as_plain(m[k]) for k in kinds}
     claimed = sum(len(v) for v in lists.values())
-    warned = C.unparsable_texts(recs)
+    warned = C.records_of(recs, "chartparse.track")
     if claimed + len(warned) != len(lines):
         ctx.fail("conservation", f"{len(lines)} lines, {claimed} data + {len(warned)} warnings "
                                  f"(each line must be claimed once or reported once)", case)
@@ -268,8 +267,9 @@ def check_datum(ctx: Ctx, case) -> None:
                 pass
         if acc == 0:
             unclaimed.append(ln)
-    if Counter(unclaimed) != Counter(warned):
-        ctx.fail("reported-once", f"lines no kind accepts {unclaimed} but reported {warned}", case)
+    why = C.reports_match(warned, unclaimed)
+    if why:
+        ctx.fail("reported-once", f"lines no kind accepts {unclaimed}: {why}", case)
     if case["group"] != "events":
         for perm in itertools.permutations(kinds):
             with C.capture_logs():
